@@ -99,6 +99,8 @@ var acceptC09 = []accept{
 
 func runC09(p *eng.Prog, r *eng.Report, tier string) {
 	c := &cx{p, r, tier}
+	r.Floor("C09.27", "comparisons of interface values", interfaceComparisonsCannotPanic(c, "C09.27"), 10)
+	r.Floor("C09.28", "blocking channel operations", lockHeldAcrossChannelOp(c, "C09.28", ""), 10)
 	fns, why := serveScopeWith(c, true)
 	servefns, servewhy := serveScope(c)
 	r.Note("scope: %d functions exposed to peer input", len(fns))
